@@ -673,7 +673,7 @@ def main():
         sys.exit(replay(args.replay))
     tier = driver.tier_from(args.tier)
     seed = driver.seed_from_env()
-    total = args.scenarios or (2400 if tier == "quick" else 20000)
+    total = args.scenarios or (2000 if tier == "quick" else 12000)
     nshards = 96 if tier == "quick" else 512
     per = (total + nshards - 1) // nshards
     payloads = [(seed, s, s * per, min(total, (s + 1) * per), tier)
@@ -689,7 +689,7 @@ def main():
         sys.exit(2)
     nsessions = 0 if args.digest_only else (
         args.sessions if args.sessions is not None
-        else (600 if tier == "quick" else 40000))
+        else (600 if tier == "quick" else 20000))
     session_results = []
     if nsessions:
         sper = (nsessions + nshards - 1) // nshards
